@@ -316,8 +316,11 @@ def reset_registries():
     if Orig.aliases is None:
         Orig.aliases = dict(functions.opcode_aliases)
         Orig.ifaces = dict(functions._contract_interfaces)
+    # emptied IN PLACE: the list objects the module created stay the ones in
+    # use (re-binding fresh lists here would hide what the module's own
+    # containers do, e.g. two scopes sharing one list)
     for s in list(functions._plugins):
-        functions._plugins[s] = []
+        del functions._plugins[s][:]
     functions._contracts.clear()
     functions._contract_interfaces.clear()
     functions._contract_interfaces.update(Orig.ifaces)
@@ -499,8 +502,10 @@ def baseline_for(key, ctx):
     for a in minimal_adds(key):
         do_action(a)
     b = battery()
+    for k in functions._plugins:
+        del functions._plugins[k][:]
     for k, v in saved[0].items():
-        functions._plugins[k] = v
+        functions._plugins[k].extend(v)
     functions._contracts.clear()
     functions._contracts.update(saved[1])
     functions._contract_interfaces.clear()
